@@ -18,6 +18,48 @@ def Good (f : File) (k : Int) (b : RBlk) : Prop :=
   b.base = k ∧ b.hasData = true ∧ b.offFile = k ∧
     ∃ m, f.find k = some m ∧ b.data = m.data ∧ b.hsize = m.size
 
+/-- two caches share no block -/
+def Disj (o : CacheOps σ) (p q : σ) : Prop := ∀ e ∈ o.held p, ∀ e' ∈ o.held q, e.id ≠ e'.id
+
+theorem Disj.symm {o : CacheOps σ} {p q : σ} (h : Disj o p q) : Disj o q p :=
+  fun e he e' he' hh => h e' he' e he hh.symm
+
+/-- a cache, attached or not, holds only allocated, intact blocks other than the current one, each once -/
+structure CacheOK (o : CacheOps σ) (wf : σ → Prop) (f : File) (r : Reader σ) (c : σ) : Prop where
+  wf : wf c
+  ents : ∀ e ∈ o.held c, e.id < r.fresh ∧ r.cur ≠ some e.id ∧ Good f e.key (r.heap e.id)
+  ids : ∀ a ∈ o.held c, ∀ b ∈ o.held c, a.id = b.id → a = b
+
+/-- the caches that have been detached (`Reader.parked`) stay intact and share no block with each other or
+with the attached cache -/
+structure ParkedOK (o : CacheOps σ) (wf : σ → Prop) (f : File) (r : Reader σ) : Prop where
+  ok : ∀ p ∈ r.parked, CacheOK o wf f r p
+  act : ∀ c, r.cache = some c → ∀ p ∈ r.parked, Disj o c p
+  pw : r.parked.Pairwise (Disj o)
+
+/-- the detached caches are untouched by a step that only writes the current block or a new block -/
+theorem ParkedOK.frame {o : CacheOps σ} {wf : σ → Prop} {f : File} {r R : Reader σ} (pk : ParkedOK o wf f r)
+    (hp : R.parked = r.parked) (hf : r.fresh ≤ R.fresh)
+    (hcur : ∀ p ∈ r.parked, ∀ e ∈ o.held p, R.cur ≠ some e.id)
+    (hheap : ∀ p ∈ r.parked, ∀ e ∈ o.held p, R.heap e.id = r.heap e.id)
+    (hact : ∀ c, R.cache = some c → ∀ p ∈ r.parked, Disj o c p) : ParkedOK o wf f R := by
+  refine ⟨?_, ?_, ?_⟩
+  · intro p hp'
+    rw [hp] at hp'
+    obtain ⟨w, ents, ids⟩ := pk.ok p hp'
+    refine ⟨w, ?_, ids⟩
+    intro e he
+    obtain ⟨a1, _, a3⟩ := ents e he
+    exact ⟨by omega, hcur p hp' e he, by rw [hheap p hp' e he]; exact a3⟩
+  · intro c hc p hp'; rw [hp] at hp'; exact hact c hc p hp'
+  · rw [hp]; exact pk.pw
+
+theorem ParkedOK.congr {o : CacheOps σ} {wf : σ → Prop} {f : File} {r : Reader σ} (pk : ParkedOK o wf f r)
+    (R : Reader σ) (h1 : R.heap = r.heap) (h2 : R.fresh = r.fresh) (h3 : R.cur = r.cur)
+    (h4 : R.cache = r.cache) (h5 : R.parked = r.parked) : ParkedOK o wf f R :=
+  pk.frame h5 (by omega) (fun p hp e he => by rw [h3]; exact ((pk.ok p hp).ents e he).2.1)
+    (fun p hp e he => by rw [h1]) (fun c hc p hp => pk.act c (by rw [← h4]; exact hc) p hp)
+
 /-- `cache_inv`: what holds of a reader and its cache after every history -/
 structure Inv (o : CacheOps σ) (wf : σ → Prop) (f : File) (r : Reader σ) : Prop where
   cur_lt : ∀ id, r.cur = some id → id < r.fresh
@@ -29,6 +71,20 @@ structure Inv (o : CacheOps σ) (wf : σ → Prop) (f : File) (r : Reader σ) : 
     e.id < r.fresh ∧ r.cur ≠ some e.id ∧ Good f e.key (r.heap e.id)
   /-- block identities in the cache are pairwise distinct -/
   ids : ∀ c, r.cache = some c → ∀ a ∈ o.held c, ∀ b ∈ o.held c, a.id = b.id → a = b
+  /-- the same holds of every cache that was attached earlier and may be attached again -/
+  parked : ParkedOK o wf f r
+
+theorem Inv.congr {o : CacheOps σ} {wf : σ → Prop} {f : File} {r : Reader σ} (i : Inv o wf f r)
+    (R : Reader σ) (h1 : R.heap = r.heap) (h2 : R.fresh = r.fresh) (h3 : R.cur = r.cur)
+    (h4 : R.cache = r.cache) (h5 : R.parked = r.parked := by rfl) : Inv o wf f R := by
+  refine ⟨?_, ?_, ?_, ?_, ?_, i.parked.congr R h1 h2 h3 h4 h5⟩
+  · intro id hid; rw [h2]; exact i.cur_lt id (by rw [← h3]; exact hid)
+  · intro id hid hd; rw [h1] at hd ⊢; exact i.cur_good id (by rw [← h3]; exact hid) hd
+  · intro c hc; exact i.cache_wf c (by rw [← h4]; exact hc)
+  · intro c hc e he
+    obtain ⟨a1, a2, a3⟩ := i.held c (by rw [← h4]; exact hc) e he
+    exact ⟨by rw [h2]; exact a1, by rw [h3]; exact a2, by rw [h1]; exact a3⟩
+  · intro c hc; exact i.ids c (by rw [← h4]; exact hc)
 
 /-- the two current blocks look the same to the reader -/
 def BlkEq (a b : RBlk) : Prop :=
@@ -53,7 +109,8 @@ structure Sim (C U : Reader σ) : Prop where
 theorem cachePut_fields {o : CacheOps σ} {r r2 : Reader σ} {c c2 : σ} {b back : Option Nat} {ret : Bool}
     (h : cachePut o r c b = .ok (r2, c2, back, ret)) :
     r2.heap = r.heap ∧ r2.fresh = r.fresh ∧ r2.cur = r.cur ∧ r2.err = r.err ∧
-    r2.chunkBegin = r.chunkBegin ∧ r2.chunkEnd = r.chunkEnd ∧ r2.blocked = r.blocked ∧ r2.cache = r.cache := by
+    r2.chunkBegin = r.chunkBegin ∧ r2.chunkEnd = r.chunkEnd ∧ r2.blocked = r.blocked ∧ r2.cache = r.cache ∧
+    r2.parked = r.parked := by
   unfold cachePut at h
   cases b with
   | none => simp at h; obtain ⟨h1, _⟩ := h; subst h1; simp
@@ -170,13 +227,34 @@ theorem recycle_cases (cfg : Cfg) (o : CacheOps σ) (r2 : Reader σ) (c2 : σ) (
       · exact Or.inl rfl
       · exact Or.inr ⟨trivial, rfl⟩
 
+@[simp] theorem markLent_heap (r : Reader σ) (b : Bool) (id : Nat) : (markLent r b id).heap = r.heap := by
+  unfold markLent; split <;> rfl
+@[simp] theorem markLent_fresh (r : Reader σ) (b : Bool) (id : Nat) : (markLent r b id).fresh = r.fresh := by
+  unfold markLent; split <;> rfl
+@[simp] theorem markLent_cur (r : Reader σ) (b : Bool) (id : Nat) : (markLent r b id).cur = r.cur := by
+  unfold markLent; split <;> rfl
+@[simp] theorem markLent_err (r : Reader σ) (b : Bool) (id : Nat) : (markLent r b id).err = r.err := by
+  unfold markLent; split <;> rfl
+@[simp] theorem markLent_cb (r : Reader σ) (b : Bool) (id : Nat) :
+    (markLent r b id).chunkBegin = r.chunkBegin := by unfold markLent; split <;> rfl
+@[simp] theorem markLent_ce (r : Reader σ) (b : Bool) (id : Nat) :
+    (markLent r b id).chunkEnd = r.chunkEnd := by unfold markLent; split <;> rfl
+@[simp] theorem markLent_blocked (r : Reader σ) (b : Bool) (id : Nat) :
+    (markLent r b id).blocked = r.blocked := by unfold markLent; split <;> rfl
+@[simp] theorem markLent_cache (r : Reader σ) (b : Bool) (id : Nat) : (markLent r b id).cache = r.cache := by
+  unfold markLent; split <;> rfl
+@[simp] theorem markLent_parked (r : Reader σ) (b : Bool) (id : Nat) : (markLent r b id).parked = r.parked := by
+  unfold markLent; split <;> rfl
+theorem markLent_hview (r : Reader σ) (b : Bool) (id : Nat) : (markLent r b id).hview = r.hview := by
+  unfold markLent; split <;> rfl
+
 /-- `cacheSwap(k)` when the current block is not a data-holding block of base `k` -/
 theorem cacheSwap_spec {o : CacheOps σ} {wf : σ → Prop} (ct : Contract o wf) {cfg : Cfg} {f : File}
     {r r1 : Reader σ} {k : Int} {hit : Bool} (inv : Inv o wf f r)
     (hk : ∀ id, r.cur = some id → (r.heap id).hasData = true → (r.heap id).base ≠ k)
     (h : cacheSwap cfg o r k = .ok (r1, hit)) :
     r1.err = r.err ∧ r1.chunkBegin = r.chunkBegin ∧ r1.chunkEnd = r.chunkEnd ∧ r1.blocked = r.blocked ∧
-    r1.fresh = r.fresh ∧ (r.cache = none → r1 = r ∧ hit = false) ∧ Inv o wf f r1 ∧
+    r1.fresh = r.fresh ∧ (r.cache = none → hit = false ∧ r1.cache = none) ∧ Inv o wf f r1 ∧
     (hit = true → ∃ id, r1.cur = some id ∧ Good f k (r1.heap id) ∧ (r1.heap id).pos = 0 ∧
         (r1.heap id).offBlock = 0) ∧
     (hit = false → r1.heap = r.heap ∧ (r1.cur = none ∨ r1.cur = r.cur) ∧
@@ -185,19 +263,29 @@ theorem cacheSwap_spec {o : CacheOps σ} {wf : σ → Prop} (ct : Contract o wf)
   cases hc : r.cache with
   | none =>
     simp only [hc] at h
-    simp only [Except.ok.injEq, Prod.mk.injEq] at h
-    obtain ⟨h1, h2⟩ := h
-    subst h1 h2
-    have g9 : false = false → r.heap = r.heap ∧ (r.cur = none ∨ r.cur = r.cur) ∧
-        ∀ c1, r.cache = some c1 → ∀ e ∈ o.held c1, e.key ≠ k := by
-      intro _
-      refine ⟨rfl, Or.inr rfl, ?_⟩
-      intro c1 h1; rw [hc] at h1; cases h1
-    exact ⟨rfl, rfl, rfl, rfl, rfl, fun _ => ⟨rfl, rfl⟩, inv, fun h0 => Bool.noConfusion h0, g9⟩
+    split at h
+    · simp only [Except.ok.injEq, Prod.mk.injEq] at h
+      obtain ⟨h1, h2⟩ := h
+      subst h1 h2
+      refine ⟨rfl, rfl, rfl, rfl, rfl, fun _ => ⟨rfl, rfl⟩, ?_, fun h0 => Bool.noConfusion h0,
+        fun _ => ⟨rfl, Or.inl rfl, fun c1 h1 => by cases h1⟩⟩
+      refine ⟨?_, ?_, ?_, ?_, ?_, ?_⟩
+      · intro j hj; cases hj
+      · intro j hj; cases hj
+      · intro c' hc'; cases hc'
+      · intro c' hc'; cases hc'
+      · intro c' hc'; cases hc'
+      · exact inv.parked.frame rfl (Nat.le_refl _) (fun _ _ _ _ => by simp) (fun _ _ _ _ => rfl)
+          (fun c' hc' => by cases hc')
+    · simp only [Except.ok.injEq, Prod.mk.injEq] at h
+      obtain ⟨h1, h2⟩ := h
+      subst h1 h2
+      exact ⟨rfl, rfl, rfl, rfl, rfl, fun _ => ⟨rfl, hc⟩, inv, fun h0 => Bool.noConfusion h0,
+        fun _ => ⟨rfl, Or.inr rfl, fun c1 h1 => by rw [hc] at h1; cases h1⟩⟩
   | some c =>
     simp only [hc] at h
     have hwf := inv.cache_wf c hc
-    have g6 : ∀ (R : Reader σ) (b : Bool), (some c = none → R = r ∧ b = false) := by
+    have g6 : ∀ (R : Reader σ) (b : Bool), (some c = none → b = false ∧ R.cache = none) := by
       intro R b h0; cases h0
     split at h
     · rename_i c1 id hg
@@ -206,8 +294,9 @@ theorem cacheSwap_spec {o : CacheOps σ} {wf : σ → Prop} (ct : Contract o wf)
       obtain ⟨hid_lt, hid_cur, hid_good⟩ := inv.held c hc _ hmem
       simp only at hid_lt hid_cur hid_good
       -- the block handed over gets seek(0)
-      cases hp : cachePut o (r.setB id { r.heap id with pos := 0, offBlock := 0 }) c1
-          (r.setB id { r.heap id with pos := 0, offBlock := 0 }).cur with
+      generalize hbl : (cfg.lentGuard && (o.peek r.hview c1 k).1) = bl at h
+      cases hp : cachePut o (markLent (r.setB id { r.heap id with pos := 0, offBlock := 0 }) bl id) c1
+          (markLent (r.setB id { r.heap id with pos := 0, offBlock := 0 }) bl id).cur with
       | error e => rw [hp] at h; cases h
       | ok v =>
         obtain ⟨r2, c2, back, ret⟩ := v
@@ -215,7 +304,9 @@ theorem cacheSwap_spec {o : CacheOps σ} {wf : σ → Prop} (ct : Contract o wf)
         simp only [Except.ok.injEq, Prod.mk.injEq] at h
         obtain ⟨h1, h2⟩ := h
         subst h1 h2
-        obtain ⟨fh, ff, fc, fe, fcb, fce, fbl, fca⟩ := cachePut_fields hp
+        obtain ⟨fh, ff, fc, fe, fcb, fce, fbl, fca, fpk⟩ := cachePut_fields hp
+        simp only [markLent_heap, markLent_fresh, markLent_cur, markLent_err, markLent_cb, markLent_ce,
+          markLent_blocked, markLent_cache, markLent_parked] at fh ff fc fe fcb fce fbl fca fpk
         have hheap : ∀ j, j ≠ id → r2.heap j = r.heap j := by
           intro j hj; rw [fh]; exact setB_other _ _ hj
         have hheap_id : r2.heap id = { r.heap id with pos := 0, offBlock := 0 } := by
@@ -232,30 +323,54 @@ theorem cacheSwap_spec {o : CacheOps σ} {wf : σ → Prop} (ct : Contract o wf)
           exact inv.ids c hc a ((hheld1 a).1 ha).1 b ((hheld1 b).1 hb).1
         -- one Put of the old current block (if it happened)
         have hputcase : ∀ cid hint res, r.cur = some cid →
-            ((r.setB id { r.heap id with pos := 0, offBlock := 0 }).heap cid).hasData = true →
-            o.put (r.setB id { r.heap id with pos := 0, offBlock := 0 }).hview c1 cid hint = some (c2, res) →
+            ((markLent (r.setB id { r.heap id with pos := 0, offBlock := 0 }) bl id).heap cid).hasData = true →
+            o.put (markLent (r.setB id { r.heap id with pos := 0, offBlock := 0 }) bl id).hview c1 cid hint =
+              some (c2, res) →
             wf c2 ∧ (∀ e ∈ o.held c2, e.id < r.fresh ∧ e.id ≠ id ∧ Good f e.key (r.heap e.id)) ∧
-              (∀ a ∈ o.held c2, ∀ b ∈ o.held c2, a.id = b.id → a = b) := by
+              (∀ a ∈ o.held c2, ∀ b ∈ o.held c2, a.id = b.id → a = b) ∧
+              (∀ e ∈ o.held c2, e ∈ o.held c1 ∨ r.cur = some e.id) := by
           intro cid hint res hcur hd hput
           have hne : cid ≠ id := fun hh => hid_cur (hh ▸ hcur)
-          have hd' : (r.heap cid).hasData = true := by rw [setB_other _ _ hne] at hd; exact hd
-          have hbase : ((r.setB id { r.heap id with pos := 0, offBlock := 0 }).hview cid).base
+          have hd' : (r.heap cid).hasData = true := by
+            rw [markLent_heap, setB_other _ _ hne] at hd; exact hd
+          have hbase : ((markLent (r.setB id { r.heap id with pos := 0, offBlock := 0 }) bl id).hview cid).base
               = (r.heap cid).base := by
+            rw [markLent_hview]
             simp [Reader.hview, RBlk.view, setB_other _ _ hne]
           have := put_preserves ct (fun e => e.id < r.fresh ∧ e.id ≠ id ∧ Good f e.key (r.heap e.id))
             hwf1 hput hP1
             ⟨inv.cur_lt cid hcur, hne, by rw [hbase]; exact inv.cur_good cid hcur hd'⟩
             (fun e he hh => (inv.held c hc e ((hheld1 e).1 he).1).2.1 (hh ▸ hcur)) hids1
-          exact ⟨this.1, this.2.1, this.2.2.1⟩
+          refine ⟨this.1, this.2.1, this.2.2.1, fun e he => ?_⟩
+          rcases this.2.2.2.2 e he with h1 | h1
+          · exact Or.inl h1
+          · exact Or.inr (by rw [h1]; exact hcur)
         have hc2 : wf c2 ∧ (∀ e ∈ o.held c2, e.id < r.fresh ∧ e.id ≠ id ∧ Good f e.key (r.heap e.id)) ∧
-            (∀ a ∈ o.held c2, ∀ b ∈ o.held c2, a.id = b.id → a = b) := by
+            (∀ a ∈ o.held c2, ∀ b ∈ o.held c2, a.id = b.id → a = b) ∧
+            (∀ e ∈ o.held c2, e ∈ o.held c1 ∨ r.cur = some e.id) := by
           rcases cachePut_cache hp with ⟨_, _, hcc⟩ | ⟨_, cid, hint, ev, hb, hd, hput⟩
           · rcases hcc with hcc | ⟨cid, hint, hb, hd, hput⟩
-            · rw [hcc]; exact ⟨hwf1, hP1, hids1⟩
-            · exact hputcase cid hint _ hb hd hput
-          · exact hputcase cid hint _ hb hd hput
+            · rw [hcc]; exact ⟨hwf1, hP1, hids1, fun e he => Or.inl he⟩
+            · exact hputcase cid hint _ (by simpa [Reader.setB] using hb) hd hput
+          · exact hputcase cid hint _ (by simpa [Reader.setB] using hb) hd hput
+        have hnp : ∀ e ∈ o.held c2, ∀ p ∈ r.parked, ∀ e' ∈ o.held p, e.id ≠ e'.id := by
+          intro e he p hp e' he'
+          rcases hc2.2.2.2 e he with h1 | h1
+          · exact inv.parked.act c hc p hp e ((hheld1 e).1 h1).1 e' he'
+          · intro hh; exact ((inv.parked.ok p hp).ents e' he').2.1 (by rw [h1, hh])
         have g7 : Inv o wf f { r2 with cache := some c2, cur := some id } := by
-          refine ⟨?_, ?_, ?_, ?_, ?_⟩
+          refine ⟨?_, ?_, ?_, ?_, ?_, ?_⟩
+          rotate_left 5
+          · refine inv.parked.frame fpk (by rw [ff]; exact Nat.le_refl _) ?_ ?_ ?_
+            · intro p hp e' he' hh
+              simp only [Option.some.injEq] at hh
+              exact inv.parked.act c hc p hp _ hmem e' he' hh
+            · intro p hp e' he'
+              have hne : e'.id ≠ id := fun hh => inv.parked.act c hc p hp _ hmem e' he' hh.symm
+              exact hheap _ hne
+            · intro c' hc' p hp e he e' he'
+              simp only [Option.some.injEq] at hc'; subst hc'
+              exact hnp e he p hp e' he'
           · intro j hj; simp only [Option.some.injEq] at hj; subst hj; simp only; rw [ff]; exact hid_lt
           · intro j hj _
             simp only [Option.some.injEq] at hj; subst hj
@@ -271,7 +386,7 @@ theorem cacheSwap_spec {o : CacheOps σ} {wf : σ → Prop} (ct : Contract o wf)
             refine ⟨by simp only; rw [ff]; exact a1,
               fun hh => a2 (by simp only [Option.some.injEq] at hh; exact hh.symm), ?_⟩
             simp only; rw [hheap _ a2]; exact a3
-          · intro c' hc'; simp only [Option.some.injEq] at hc'; subst hc'; exact hc2.2.2
+          · intro c' hc'; simp only [Option.some.injEq] at hc'; subst hc'; exact hc2.2.2.1
         have g8 : true = true → ∃ j, ({ r2 with cache := some c2, cur := some id } : Reader σ).cur = some j ∧
             Good f k (({ r2 with cache := some c2, cur := some id } : Reader σ).heap j) ∧
             (({ r2 with cache := some c2, cur := some id } : Reader σ).heap j).pos = 0 ∧
@@ -293,7 +408,7 @@ theorem cacheSwap_spec {o : CacheOps σ} {wf : σ → Prop} (ct : Contract o wf)
         simp only [Except.ok.injEq, Prod.mk.injEq] at h
         obtain ⟨h1, h2⟩ := h
         subst h1 h2
-        obtain ⟨fh, ff, fc, fe, fcb, fce, fbl, fca⟩ := cachePut_fields hp
+        obtain ⟨fh, ff, fc, fe, fcb, fce, fbl, fca, fpk⟩ := cachePut_fields hp
         have hP1 : ∀ e ∈ o.held c1, e.id < r.fresh ∧ r.cur ≠ some e.id ∧ Good f e.key (r.heap e.id) := by
           intro e he; rw [hheld1] at he; exact inv.held c hc e he
         have hids1 : ∀ a ∈ o.held c1, ∀ b ∈ o.held c1, a.id = b.id → a = b := by
@@ -344,8 +459,33 @@ theorem cacheSwap_spec {o : CacheOps σ} {wf : σ → Prop} (ct : Contract o wf)
             intro e he
             exact ⟨(hpres.2.1 e he).1, by rw [hrec]; simp, (hpres.2.1 e he).2⟩
         obtain ⟨hcurR, hw2, hP2, hids2, hnokey2⟩ := hboth
+        have horigin : ∀ e ∈ o.held c2, e ∈ o.held c1 ∨ r.cur = some e.id := by
+          rcases cachePut_cache hp with ⟨_, _, hcc⟩ | ⟨_, cid, hint, ev, hb, hd, hput⟩
+          · rcases hcc with hcc | ⟨cid, hint, hb, hd, hput⟩
+            · rw [hcc]; exact fun e he => Or.inl he
+            · rw [ct.put_refused _ _ _ _ _ hwf1 hput]; exact fun e he => Or.inl he
+          · have hcur : r.cur = some cid := hb
+            have := put_preserves ct (fun _ => True) hwf1 hput (fun _ _ => trivial) trivial
+              (fun e he hh => (hP1 e he).2.1 (hh ▸ hcur)) hids1
+            intro e he
+            rcases this.2.2.2.2 e he with h1 | h1
+            · exact Or.inl h1
+            · exact Or.inr (by rw [h1]; exact hcur)
         have g7 : Inv o wf f { r2 with cache := some c2, cur := recycle cfg o r2 c2 ret back } := by
-          refine ⟨?_, ?_, ?_, ?_, ?_⟩
+          refine ⟨?_, ?_, ?_, ?_, ?_, ?_⟩
+          rotate_left 5
+          · refine inv.parked.frame fpk (by rw [ff]; exact Nat.le_refl _) ?_ ?_ ?_
+            · intro p hp e' he'
+              simp only
+              rcases hcurR with h0 | h0
+              · rw [h0]; simp
+              · rw [h0]; exact ((inv.parked.ok p hp).ents e' he').2.1
+            · intro p hp e' he'; simp only; rw [fh]
+            · intro c' hc' p hp e he e' he'
+              simp only [Option.some.injEq] at hc'; subst hc'
+              rcases horigin e he with h1 | h1
+              · rw [hheld1] at h1; exact inv.parked.act c hc p hp e h1 e' he'
+              · intro hh; exact ((inv.parked.ok p hp).ents e' he').2.1 (by rw [h1, hh])
           · intro j hj
             simp only at hj
             rcases hcurR with h0 | h0
@@ -412,19 +552,27 @@ theorem lazyBlock_spec {o : CacheOps σ} {wf : σ → Prop} {f : File} {r : Read
       (∀ c, r.cache = some c → ∀ e ∈ o.held c, e.id ≠ id) ∧
       (∀ j, j ≠ id → r'.heap j = r.heap j) ∧
       r'.cache = r.cache ∧ r'.err = r.err ∧ r'.chunkBegin = r.chunkBegin ∧ r'.chunkEnd = r.chunkEnd ∧
-      r'.blocked = r.blocked := by
+      r'.blocked = r.blocked ∧ r'.lent = r.lent ∧ r'.parked = r.parked ∧
+      (∀ p ∈ r.parked, ∀ e ∈ o.held p, e.id ≠ id) := by
   unfold lazyBlock
   cases hcur : r.cur with
   | some id =>
-    refine ⟨r, id, rfl, hcur, inv.cur_lt id hcur, Nat.le_refl _, ?_, fun _ _ => rfl, rfl, rfl, rfl, rfl, rfl⟩
-    intro c hc e he hh
-    exact (inv.held c hc e he).2.1 (by rw [hcur, hh])
+    refine ⟨r, id, rfl, hcur, inv.cur_lt id hcur, Nat.le_refl _, ?_, fun _ _ => rfl, rfl, rfl, rfl, rfl, rfl, rfl,
+      rfl, ?_⟩
+    · intro c hc e he hh
+      exact (inv.held c hc e he).2.1 (by rw [hcur, hh])
+    · intro p hp e he hh
+      exact ((inv.parked.ok p hp).ents e he).2.1 (by rw [hcur, hh])
   | none =>
-    refine ⟨_, r.fresh, rfl, rfl, by simp [Reader.setB], by simp [Reader.setB], ?_, ?_, rfl, rfl, rfl, rfl, rfl⟩
+    refine ⟨_, r.fresh, rfl, rfl, by simp [Reader.setB], by simp [Reader.setB], ?_, ?_, rfl, rfl, rfl, rfl, rfl, rfl,
+      rfl, ?_⟩
     · intro c hc e he hh
       have := (inv.held c hc e he).1
       omega
     · intro j hj; simp [Reader.setB, hj]
+    · intro p hp e he hh
+      have := ((inv.parked.ok p hp).ents e he).1
+      omega
 
 theorem rebase_facts (cfg : Cfg) (b : RBlk) (off : Int) :
     (rebase cfg b off).base = off ∧ (rebase cfg b off).offFile = off ∧ (rebase cfg b off).offBlock = 0 := by
@@ -452,13 +600,23 @@ theorem loadAt_spec {o : CacheOps σ} {wf : σ → Prop} {cfg : Cfg}
       Loaded f off ((loadAt cfg f r off).1.heap id) (loadAt cfg f r off).2 ∧
       Inv o wf f (loadAt cfg f r off).1 ∧ (loadAt cfg f r off).1.err = r.err ∧
       (loadAt cfg f r off).1.chunkBegin = r.chunkBegin ∧ (loadAt cfg f r off).1.chunkEnd = r.chunkEnd ∧
-      (loadAt cfg f r off).1.blocked = r.blocked ∧ (loadAt cfg f r off).1.cache = r.cache := by
-  obtain ⟨r', id, hl, hcur, hlt, hfresh, hnot, hheap, hca, he, hcb, hce, hbl⟩ := lazyBlock_spec inv
+      (loadAt cfg f r off).1.blocked = r.blocked ∧ (loadAt cfg f r off).1.cache = r.cache ∧
+      (loadAt cfg f r off).1.lent = r.lent := by
+  obtain ⟨r', id, hl, hcur, hlt, hfresh, hnot, hheap, hca, he, hcb, hce, hbl, hle, hpk, hnotp⟩ := lazyBlock_spec inv
   obtain ⟨rb1, rb2, rb3⟩ := rebase_facts cfg (r'.heap id) off
   obtain ⟨fb2, fb3, fb4⟩ := failedBlk_facts cfg hcfg (r'.heap id) off
   have hinv : ∀ (b : RBlk), ((b.hasData = true) → Good f b.base b) → Inv o wf f (r'.setB id b) := by
     intro b hb
-    refine ⟨?_, ?_, ?_, ?_, ?_⟩
+    refine ⟨?_, ?_, ?_, ?_, ?_, ?_⟩
+    rotate_left 5
+    · refine inv.parked.frame hpk hfresh ?_ ?_ ?_
+      · intro p hp e he hh
+        simp only [Reader.setB, hcur, Option.some.injEq] at hh
+        exact hnotp p hp e he hh.symm
+      · intro p hp e he
+        rw [setB_other _ _ (hnotp p hp e he), hheap _ (hnotp p hp e he)]
+      · intro c hc p hp
+        exact inv.parked.act c (by rw [← hca]; exact hc) p hp
     · intro j hj
       have : j = id := by simp only [Reader.setB] at hj; rw [hcur] at hj; exact (Option.some.inj hj).symm
       subst this; exact hlt
@@ -484,7 +642,7 @@ theorem loadAt_spec {o : CacheOps σ} {wf : σ → Prop} {cfg : Cfg}
   | some m =>
     simp only
     refine ⟨id, by simp [Reader.setB, hcur], ?_, ?_, by simp [Reader.setB, he], by simp [Reader.setB, hcb],
-      by simp [Reader.setB, hce], by simp [Reader.setB, hbl], by simp [Reader.setB, hca]⟩
+      by simp [Reader.setB, hce], by simp [Reader.setB, hbl], by simp [Reader.setB, hca], by simp [Reader.setB, hle]⟩
     · rw [setB_same]
       refine ⟨rb2, rb3, ?_⟩
       rw [hm]
@@ -495,7 +653,7 @@ theorem loadAt_spec {o : CacheOps σ} {wf : σ → Prop} {cfg : Cfg}
   | none =>
     simp only
     refine ⟨id, by simp [Reader.setB, hcur], ?_, ?_, by simp [Reader.setB, he], by simp [Reader.setB, hcb],
-      by simp [Reader.setB, hce], by simp [Reader.setB, hbl], by simp [Reader.setB, hca]⟩
+      by simp [Reader.setB, hce], by simp [Reader.setB, hbl], by simp [Reader.setB, hca], by simp [Reader.setB, hle]⟩
     · rw [setB_same]
       refine ⟨fb2, fb3, ?_⟩
       rw [hm]
@@ -543,7 +701,7 @@ theorem cacheSwap_error {o : CacheOps σ} {wf : σ → Prop} (ct : Contract o wf
     e = .badHint := by
   unfold cacheSwap at h
   cases hc : r.cache with
-  | none => simp only [hc] at h; cases h
+  | none => simp only [hc] at h; split at h <;> cases h
   | some c =>
     simp only [hc] at h
     have hwf := inv.cache_wf c hc
@@ -563,11 +721,14 @@ theorem cacheSwap_error {o : CacheOps σ} {wf : σ → Prop} (ct : Contract o wf
         exact cachePut_error ct hwf1 hp
       · cases h
 
-/-- without a cache `fetch` is the decompression step -/
-theorem fetch_uncached (cfg : Cfg) (o : CacheOps σ) (f : File) {r : Reader σ} (k : Int) (hc : r.cache = none) :
-    fetch cfg o f r k = .ok (loadAt cfg f r k) := by
+/-- without a cache (and no block on loan) `fetch` is the decompression step -/
+theorem fetch_uncached (cfg : Cfg) (o : CacheOps σ) (f : File) {r : Reader σ} (k : Int) (hc : r.cache = none)
+    (hl : r.lent = none) : fetch cfg o f r k = .ok (loadAt cfg f r k) := by
+  have hcond : (cfg.lentGuard && r.cur.isSome && r.lent == r.cur) = false := by
+    rw [hl]
+    cases r.cur <;> simp
   unfold fetch cacheSwap
-  simp only [hc]
+  simp only [hc, hcond, Bool.false_eq_true, if_false]
   unfold nextBlockAt skipCached
   simp only [hc]
 
@@ -599,7 +760,7 @@ theorem fetch_spec {o : CacheOps σ} {wf : σ → Prop} (ct : Contract o wf) {cf
       simp only
       obtain ⟨_, _, hnokey⟩ := hmiss rfl
       rw [nextBlockAt_eq ct inv1 hnokey]
-      obtain ⟨id, hcur, hl, inv2, e2, cb2, ce2, bl2, _⟩ := loadAt_spec (cfg := cfg) hcfg k inv1
+      obtain ⟨id, hcur, hl, inv2, e2, cb2, ce2, bl2, _, _⟩ := loadAt_spec (cfg := cfg) hcfg k inv1
       exact ⟨id, hcur, hl, inv2, e2.trans fe, cb2.trans fcb, ce2.trans fce, bl2.trans fbl⟩
 
 /-! ### simulation -/
@@ -616,7 +777,8 @@ def ExRel {α β : Type} (R : α → β → Prop) : Except Fault α → Except F
 structure W (o : CacheOps σ) (wf : σ → Prop) (f : File) (C U : Reader σ) : Prop where
   invC : Inv o wf f C
   invU : Inv o wf f U
-  ucache : U.cache = none
+  /-- the uncached reader has no cache and no block on loan -/
+  ucache : U.cache = none ∧ U.lent = none
   cb : C.chunkBegin = U.chunkBegin
   ce : C.chunkEnd = U.chunkEnd
   blocked : C.blocked = U.blocked
@@ -659,8 +821,8 @@ theorem fetch_sim {o : CacheOps σ} {wf : σ → Prop} (ct : Contract o wf) {cfg
     (hkC : ∀ id, C.cur = some id → (C.heap id).hasData = true → (C.heap id).base ≠ k) :
     ExRel (FetchRel o wf f C U) (fetch cfg o f C k) (fetch cfg o f U k) := by
   have hC := fetch_spec ct hcfg w.invC hkC
-  rw [fetch_uncached cfg o f k w.ucache]
-  obtain ⟨uid, ucur, ul, uinv, ue, ucb, uce, ubl, uca⟩ := loadAt_spec (cfg := cfg) hcfg k w.invU
+  rw [fetch_uncached cfg o f k w.ucache.1 w.ucache.2]
+  obtain ⟨uid, ucur, ul, uinv, ue, ucb, uce, ubl, uca, ule⟩ := loadAt_spec (cfg := cfg) hcfg k w.invU
   cases hfc : fetch cfg o f C k with
   | error e =>
     rw [hfc] at hC
@@ -673,7 +835,7 @@ theorem fetch_sim {o : CacheOps σ} {wf : σ → Prop} (ct : Contract o wf) {cfg
     simp only at hC
     obtain ⟨cid, ccur, cl, cinv, ce', ccb, cce, cbl⟩ := hC
     obtain ⟨hee, hbe⟩ := cl.blkEq ul
-    refine ⟨hee, ⟨cinv, uinv, by rw [uca]; exact w.ucache, by rw [ccb, ucb]; exact w.cb,
+    refine ⟨hee, ⟨cinv, uinv, ⟨by rw [uca]; exact w.ucache.1, by rw [ule]; exact w.ucache.2⟩, by rw [ccb, ucb]; exact w.cb,
       by rw [cce, uce]; exact w.ce, by rw [cbl, ubl]; exact w.blocked, cid, uid, ccur, ucur, hbe⟩, ce', ue, ?_⟩
     intro c hc
     have : c = cid := by rw [ccur] at hc; exact (Option.some.inj hc).symm
@@ -730,7 +892,8 @@ theorem ExRel.same {α β : Type} {R : α → β → Prop} (e : Fault) :
   cases e <;> simp [ExRel]
 
 theorem Inv.setErr {o : CacheOps σ} {wf : σ → Prop} {f : File} {r : Reader σ} (i : Inv o wf f r) (e : Err) :
-    Inv o wf f { r with err := e } := ⟨i.cur_lt, i.cur_good, i.cache_wf, i.held, i.ids⟩
+    Inv o wf f { r with err := e } :=
+  ⟨i.cur_lt, i.cur_good, i.cache_wf, i.held, i.ids, i.parked.congr _ rfl rfl rfl rfl rfl⟩
 
 theorem W.setErr {o : CacheOps σ} {wf : σ → Prop} {f : File} {C U : Reader σ} (w : W o wf f C U) (e e' : Err) :
     W o wf f { C with err := e } { U with err := e' } :=
@@ -781,7 +944,7 @@ theorem skipEmpty_sim {o : CacheOps σ} {wf : σ → Prop} (ct : Contract o wf) 
 theorem Inv.advance {o : CacheOps σ} {wf : σ → Prop} {f : File} {r : Reader σ} (i : Inv o wf f r) {id : Nat}
     (hc : r.cur = some id) (p q : Nat) (u : Bool) :
     Inv o wf f (r.setB id { r.heap id with pos := p, offBlock := q, used := u }) := by
-  refine ⟨i.cur_lt, ?_, i.cache_wf, ?_, i.ids⟩
+  refine ⟨i.cur_lt, ?_, i.cache_wf, ?_, i.ids, ?_⟩
   · intro j hj hd
     have : j = id := by simp only [Reader.setB] at hj; rw [hc] at hj; exact (Option.some.inj hj).symm
     subst this
@@ -792,6 +955,11 @@ theorem Inv.advance {o : CacheOps σ} {wf : σ → Prop} {f : File} {r : Reader 
     have hne : e.id ≠ id := fun hh => a2 (by rw [hc, hh])
     refine ⟨a1, a2, ?_⟩
     rw [setB_other _ _ hne]; exact a3
+  · refine i.parked.frame rfl (Nat.le_refl _) (fun p' hp e he => ((i.parked.ok p' hp).ents e he).2.1) ?_
+      (fun c hcache p' hp => i.parked.act c hcache p' hp)
+    intro p' hp e he
+    have hne : e.id ≠ id := fun hh => ((i.parked.ok p' hp).ents e he).2.1 (by rw [hc, hh])
+    exact setB_other _ _ hne
 
 theorem BlkEq.advance {a b : RBlk} (h : BlkEq a b) (hd : a.hasData = true) (k : Nat) (u u' : Bool) :
     BlkEq { a with pos := a.pos + k, offBlock := a.offBlock + k, used := u }
@@ -870,7 +1038,7 @@ theorem readLoop_sim {o : CacheOps σ} {wf : σ → Prop} (ct : Contract o wf) {
 theorem Inv.setFields {o : CacheOps σ} {wf : σ → Prop} {f : File} {r : Reader σ} (i : Inv o wf f r)
     (e : Err) (cb ce : Int × Nat) (bl : Bool) :
     Inv o wf f { r with err := e, chunkBegin := cb, chunkEnd := ce, blocked := bl } :=
-  ⟨i.cur_lt, i.cur_good, i.cache_wf, i.held, i.ids⟩
+  ⟨i.cur_lt, i.cur_good, i.cache_wf, i.held, i.ids, i.parked.congr _ rfl rfl rfl rfl rfl⟩
 
 theorem W.curOffset {o : CacheOps σ} {wf : σ → Prop} {f : File} {C U : Reader σ} (w : W o wf f C U) :
     curOffset C = curOffset U := by
@@ -914,7 +1082,7 @@ theorem read_sim {o : CacheOps σ} {wf : σ → Prop} (ct : Contract o wf) {cfg 
         have s2 : S o wf f { C1 with chunkBegin := curOffset C1 } { U1 with chunkBegin := curOffset C1 } := by
           have := s1.w.setFields C1.err U1.err (curOffset C1) C1.chunkEnd C1.blocked
           refine ⟨⟨this.invC, ?_, s1.w.ucache, rfl, s1.w.ce, s1.w.blocked, s1.w.cur⟩, s1.err, s1.live⟩
-          exact ⟨s1.w.invU.cur_lt, s1.w.invU.cur_good, s1.w.invU.cache_wf, s1.w.invU.held, s1.w.invU.ids⟩
+          exact s1.w.invU.congr _ rfl rfl rfl rfl
         have h2 := readLoop_sim ct hcfg hf (fuelFor f n) s2 n []
         rcases h2.cases with e3 | ⟨a, b, e3, e4, r3⟩ | ⟨e, e3, e4⟩
         · rw [e3]; exact ExRel.badHint _
@@ -930,16 +1098,14 @@ theorem read_sim {o : CacheOps σ} {wf : σ → Prop} (ct : Contract o wf) {cfg 
             rw [← s3.w.curOffset]
             refine ⟨rfl, rfl, ⟨?_, rfl, ?_⟩⟩
             · have := s3.w.setFields .none .none C3.chunkBegin (curOffset C3) C3.blocked
-              exact ⟨this.invC, ⟨s3.w.invU.cur_lt, s3.w.invU.cur_good, s3.w.invU.cache_wf, s3.w.invU.held,
-                s3.w.invU.ids⟩, s3.w.ucache, s3.w.cb, rfl, s3.w.blocked, s3.w.cur⟩
+              exact ⟨this.invC, s3.w.invU.congr _ rfl rfl rfl rfl, s3.w.ucache, s3.w.cb, rfl, s3.w.blocked, s3.w.cur⟩
             · intro _; exact s3.live (hflerr rfl)
           | false =>
             simp only
             rw [← s3.w.curOffset]
             refine ⟨rfl, by simp only; rw [s3.err], ⟨?_, s3.err, s3.live⟩⟩
             have := s3.w.setFields C3.err U3.err C3.chunkBegin (curOffset C3) C3.blocked
-            exact ⟨this.invC, ⟨s3.w.invU.cur_lt, s3.w.invU.cur_good, s3.w.invU.cache_wf, s3.w.invU.held,
-              s3.w.invU.ids⟩, s3.w.ucache, s3.w.cb, rfl, s3.w.blocked, s3.w.cur⟩
+            exact ⟨this.invC, s3.w.invU.congr _ rfl rfl rfl rfl, s3.w.ucache, s3.w.cb, rfl, s3.w.blocked, s3.w.cur⟩
         · rw [e3, e4]; exact ExRel.same _
       · have hne1 : C1.err ≠ .none := he1
         have hne1U : U1.err ≠ .none := by rw [← s1.err]; exact he1
@@ -950,18 +1116,6 @@ theorem read_sim {o : CacheOps σ} {wf : σ → Prop} (ct : Contract o wf) {cfg 
     have hneU : U.err ≠ .none := by rw [← s.err]; exact he
     rw [if_pos hne, if_pos hneU]
     exact ⟨rfl, by simp only; rw [s.err], s⟩
-
-theorem Inv.congr {o : CacheOps σ} {wf : σ → Prop} {f : File} {r : Reader σ} (i : Inv o wf f r)
-    (R : Reader σ) (h1 : R.heap = r.heap) (h2 : R.fresh = r.fresh) (h3 : R.cur = r.cur)
-    (h4 : R.cache = r.cache) : Inv o wf f R := by
-  refine ⟨?_, ?_, ?_, ?_, ?_⟩
-  · intro id hid; rw [h2]; exact i.cur_lt id (by rw [← h3]; exact hid)
-  · intro id hid hd; rw [h1] at hd ⊢; exact i.cur_good id (by rw [← h3]; exact hid) hd
-  · intro c hc; exact i.cache_wf c (by rw [← h4]; exact hc)
-  · intro c hc e he
-    obtain ⟨a1, a2, a3⟩ := i.held c (by rw [← h4]; exact hc) e he
-    exact ⟨by rw [h2]; exact a1, by rw [h3]; exact a2, by rw [h1]; exact a3⟩
-  · intro c hc; exact i.ids c (by rw [← h4]; exact hc)
 
 theorem byteFin_sim {o : CacheOps σ} {wf : σ → Prop} {f : File} {C U : Reader σ} (s : S o wf f C U)
     (he : C.err = .none) : ExRel (OutRel o wf f) (byteFin C) (byteFin U) := by
@@ -1102,7 +1256,61 @@ theorem seek_sim {o : CacheOps σ} {wf : σ → Prop} (ct : Contract o wf) {cfg 
 
 /-! ### whole histories -/
 
-/-- `SetCache` attaches a new (empty, well-formed) cache, or none -/
+/-- in a pairwise-related list (symmetric relation) the element at `i` is related to all others -/
+theorem pairwise_getElem_eraseIdx {α : Type} {R : α → α → Prop} (hs : ∀ a b, R a b → R b a) :
+    ∀ (l : List α) (i : Nat) (c p : α), l.Pairwise R → l[i]? = some c → p ∈ l.eraseIdx i → R c p
+  | [], _, _, _, _, h, _ => by simp at h
+  | a :: t, 0, c, p, hp, h, hm => by
+    simp only [List.getElem?_cons_zero, Option.some.injEq] at h
+    subst h
+    simp only [List.eraseIdx_cons_zero] at hm
+    exact (List.pairwise_cons.1 hp).1 p hm
+  | a :: t, i + 1, c, p, hp, h, hm => by
+    simp only [List.getElem?_cons_succ] at h
+    simp only [List.eraseIdx_cons_succ, List.mem_cons] at hm
+    rcases hm with hm | hm
+    · subst hm
+      exact hs _ _ ((List.pairwise_cons.1 hp).1 c (List.mem_of_getElem? h))
+    · exact pairwise_getElem_eraseIdx hs t i c p (List.pairwise_cons.1 hp).2 h hm
+
+/-- the attached cache satisfies `CacheOK` -/
+theorem Inv.activeOK {o : CacheOps σ} {wf : σ → Prop} {f : File} {r : Reader σ} (i : Inv o wf f r)
+    {c : σ} (hc : r.cache = some c) : CacheOK o wf f r c :=
+  ⟨i.cache_wf c hc, i.held c hc, i.ids c hc⟩
+
+/-- `SetCache`: any cache that is `CacheOK` may become the attached one, any such caches the detached ones,
+as long as no two of them share a block -/
+theorem Inv.attach {o : CacheOps σ} {wf : σ → Prop} {f : File} {r : Reader σ} (i : Inv o wf f r)
+    (cnew : Option σ) (pk : List σ) (hints : List Int)
+    (h1 : ∀ c, cnew = some c → CacheOK o wf f r c) (h2 : ∀ p ∈ pk, CacheOK o wf f r p)
+    (h3 : ∀ c, cnew = some c → ∀ p ∈ pk, Disj o c p) (h4 : pk.Pairwise (Disj o)) :
+    Inv o wf f { r with cache := cnew, hints := hints, parked := pk } := by
+  refine ⟨i.cur_lt, i.cur_good, fun c hc => (h1 c hc).wf, fun c hc => (h1 c hc).ents,
+    fun c hc => (h1 c hc).ids, ⟨?_, h3, h4⟩⟩
+  intro p hp
+  obtain ⟨w, e, d⟩ := h2 p hp
+  exact ⟨w, e, d⟩
+
+/-- detaching: the caches detached so far plus the one that was attached -/
+theorem Inv.parked_with_active {o : CacheOps σ} {wf : σ → Prop} {f : File} {r : Reader σ} (i : Inv o wf f r)
+    (l : List σ) (hl : ∀ p ∈ l, p ∈ r.parked) (hpw : l.Pairwise (Disj o)) :
+    (∀ p ∈ l ++ r.cache.toList, CacheOK o wf f r p) ∧ (l ++ r.cache.toList).Pairwise (Disj o) := by
+  constructor
+  · intro p hp
+    rcases List.mem_append.1 hp with h | h
+    · exact i.parked.ok p (hl p h)
+    · cases hc : r.cache with
+      | none => rw [hc] at h; simp at h
+      | some c => rw [hc] at h; simp at h; subst h; exact i.activeOK hc
+  · refine List.pairwise_append.2 ⟨hpw, ?_, ?_⟩
+    · cases r.cache <;> simp
+    · intro p hp q hq
+      cases hc : r.cache with
+      | none => rw [hc] at hq; simp at hq
+      | some c => rw [hc] at hq; simp at hq; subst hq; exact (i.parked.act _ hc p (hl p hp)).symm
+
+/-- `SetCache` attaches a new (empty, well-formed) cache, or none; `reattach` a cache that was attached
+before, with what it holds -/
 def OpOK (o : CacheOps σ) (wf : σ → Prop) : Op σ → Prop
   | .setCache (some c) _ => wf c ∧ o.held c = []
   | _ => True
@@ -1156,21 +1364,51 @@ theorem step_sim {o : CacheOps σ} {wf : σ → Prop} (ct : Contract o wf) {cfg 
     · rw [e1, e2]; exact ExRel.same _
   | setCache c hints =>
     simp only [step, Op.uncached]
-    refine ⟨by simp only [s.w.cb, s.w.ce], ⟨⟨?_, ?_, rfl, s.w.cb, s.w.ce, s.w.blocked, s.w.cur⟩, s.err, s.live⟩⟩
-    · refine ⟨s.w.invC.cur_lt, s.w.invC.cur_good, ?_, ?_, ?_⟩
+    have hU : U.parked ++ U.cache.toList = U.parked := by rw [s.w.ucache.1]; simp
+    obtain ⟨pa, pb⟩ := s.w.invC.parked_with_active C.parked (fun _ h => h) s.w.invC.parked.pw
+    obtain ⟨ua, ub⟩ := s.w.invU.parked_with_active U.parked (fun _ h => h) s.w.invU.parked.pw
+    refine ⟨by simp only [s.w.cb, s.w.ce], ⟨⟨?_, ?_, ⟨rfl, s.w.ucache.2⟩, s.w.cb, s.w.ce, s.w.blocked, s.w.cur⟩,
+      s.err, s.live⟩⟩
+    · refine s.w.invC.attach c _ hints ?_ pa ?_ pb
       · intro c' hc'
-        simp only at hc'
         subst hc'
-        exact ok.1
-      · intro c' hc' e he
-        simp only at hc'
+        refine ⟨ok.1, ?_, ?_⟩
+        · intro e he; rw [ok.2] at he; cases he
+        · intro a ha; rw [ok.2] at ha; cases ha
+      · intro c' hc' p hp e he
         subst hc'
         rw [ok.2] at he; cases he
-      · intro c' hc' a ha
-        simp only at hc'
-        subst hc'
-        rw [ok.2] at ha; cases ha
-    · refine ⟨s.w.invU.cur_lt, s.w.invU.cur_good, ?_, ?_, ?_⟩ <;> (intro c' hc'; simp at hc')
+    · exact s.w.invU.attach none _ [] (fun c' hc' => by cases hc') ua (fun c' hc' => by cases hc') ub
+  | reattach i hints =>
+    simp only [step, Op.uncached]
+    obtain ⟨ua, ub⟩ := s.w.invU.parked_with_active U.parked (fun _ h => h) s.w.invU.parked.pw
+    have hUinv := s.w.invU.attach none _ [] (fun c' hc' => by cases hc') ua (fun c' hc' => by cases hc') ub
+    cases hget : C.parked[i]? with
+    | none =>
+      simp only
+      obtain ⟨pa, pb⟩ := s.w.invC.parked_with_active C.parked (fun _ h => h) s.w.invC.parked.pw
+      refine ⟨by simp only [s.w.cb, s.w.ce], ⟨⟨?_, hUinv, ⟨rfl, s.w.ucache.2⟩, s.w.cb, s.w.ce, s.w.blocked,
+        s.w.cur⟩, s.err, s.live⟩⟩
+      exact s.w.invC.attach none _ hints (fun c' hc' => by cases hc') pa (fun c' hc' => by cases hc') pb
+    | some c =>
+      simp only
+      have hcm : c ∈ C.parked := List.mem_of_getElem? hget
+      obtain ⟨pa, pb⟩ := s.w.invC.parked_with_active (C.parked.eraseIdx i)
+        (fun _ h => List.mem_of_mem_eraseIdx h)
+        (List.Pairwise.sublist (List.eraseIdx_sublist _ _) s.w.invC.parked.pw)
+      refine ⟨by simp only [s.w.cb, s.w.ce], ⟨⟨?_, hUinv, ⟨rfl, s.w.ucache.2⟩, s.w.cb, s.w.ce, s.w.blocked,
+        s.w.cur⟩, s.err, s.live⟩⟩
+      refine s.w.invC.attach (some c) _ hints ?_ pa ?_ pb
+      · intro c' hc'
+        simp only [Option.some.injEq] at hc'; subst hc'
+        exact s.w.invC.parked.ok _ hcm
+      · intro c' hc' p hp
+        simp only [Option.some.injEq] at hc'; subst hc'
+        rcases List.mem_append.1 hp with h | h
+        · exact pairwise_getElem_eraseIdx (fun _ _ h => Disj.symm h) _ _ _ _ s.w.invC.parked.pw hget h
+        · cases hcc : C.cache with
+          | none => rw [hcc] at h; simp at h
+          | some a => rw [hcc] at h; simp at h; subst h; exact (s.w.invC.parked.act _ hcc _ hcm).symm
   | setBlocked b =>
     simp only [step, Op.uncached]
     refine ⟨by simp only [s.w.cb, s.w.ce], ⟨⟨?_, ?_, s.w.ucache, s.w.cb, s.w.ce, rfl, s.w.cur⟩, s.err, s.live⟩⟩
@@ -1216,12 +1454,12 @@ theorem newReader_S {o : CacheOps σ} {wf : σ → Prop} {cfg : Cfg} (hcfg : cfg
     {f : File} {r : Reader σ} (h : newReader o cfg f = .ok (r, .none)) : S o wf f r r := by
   unfold newReader nextBlockAt skipCached at h
   simp only [Except.ok.injEq] at h
-  have inv0 : Inv o wf f (⟨fun _ => {}, 0, none, .none, (0, 0), (0, 0), false, none, []⟩ : Reader σ) := by
-    refine ⟨?_, ?_, ?_, ?_, ?_⟩ <;> (intro x hx; simp at hx)
-  obtain ⟨id, hcur, hl, inv1, he, _, _, _, hca⟩ := loadAt_spec (cfg := cfg) hcfg 0 inv0
-  rw [h] at hcur hl inv1 he hca
-  simp only at hcur hl inv1 he hca
-  refine ⟨⟨inv1, inv1, hca, rfl, rfl, rfl, id, id, hcur, hcur, BlkEq.refl _⟩, rfl, ?_⟩
+  have inv0 : Inv o wf f (⟨fun _ => {}, 0, none, .none, (0, 0), (0, 0), false, none, [], none, []⟩ : Reader σ) := by
+    refine ⟨?_, ?_, ?_, ?_, ?_, ⟨?_, ?_, List.Pairwise.nil⟩⟩ <;> (intro x hx; simp at hx)
+  obtain ⟨id, hcur, hl, inv1, he, _, _, _, hca, hle⟩ := loadAt_spec (cfg := cfg) hcfg 0 inv0
+  rw [h] at hcur hl inv1 he hca hle
+  simp only at hcur hl inv1 he hca hle
+  refine ⟨⟨inv1, inv1, ⟨hca, hle⟩, rfl, rfl, rfl, id, id, hcur, hcur, BlkEq.refl _⟩, rfl, ?_⟩
   intro _ c hc
   have : c = id := by rw [hcur] at hc; exact (Option.some.inj hc).symm
   subst this
